@@ -142,8 +142,9 @@ Qed.
 (* ---- non-vacuity: the canonical string of TpsFacts7 ---- *)
 Require Import TpsFacts7.
 From Coq Require Import String.
+Definition ex_tps5 : list N := bytes_of "x4,2/x5/x2,21S,x2/x,2112212C,x3/1,x2,1C,x 2 7".
 Example ex_parse_tps_wf : exists q,
-  parse_tps gen_basis (bytes_of "x4,2/x5/x2,21S,x2/x,2112212C,x3/1,x2,1C,x 2 7") = Ok q /\ pos_ok q /\
+  parse_tps gen_basis ex_tps5 = Ok q /\ pos_ok q /\
   abs q = board_apos 5 ex_board5 13.
 Proof.
   eexists. split; [vm_compute; reflexivity|].
